@@ -71,6 +71,15 @@ def _classes():
     return {"plain": AttributeDict, "html": HTMLAttributeDict, "xml": XMLAttributeDict}, {1: AttributeValueList, 2: MyList}
 
 
+def _mystr():
+    global MyStr
+    try:
+        return MyStr
+    except NameError:
+        MyStr = type("MyStr", (str,), {})
+        return MyStr
+
+
 def big_dec(n: int) -> str:
     """decimal numeral of an int of any size (str() of the runtime has a digit limit)"""
     if n < 0:
@@ -89,6 +98,8 @@ def mk(desc):
     t = desc[0]
     if t == "s":
         return desc[1]
+    if t == "S":
+        return _mystr()(desc[1])       # a str subclass: treated as a string everywhere
     if t == "b":
         return bool(desc[1])
     if t == "n":
@@ -310,7 +321,9 @@ def builder_kwargs(cfg):
     dc, lc = _classes()
     kw = {}
     if cfg["mva"] != "default":
-        kw["multi_valued_attributes"] = None if cfg["mva"] is None else {k: set(v) for k, v in cfg["mva"]}
+        # the attribute collections in several legal forms (set, frozenset, list, tuple): only membership is needed
+        forms = (set, frozenset, list, tuple)
+        kw["multi_valued_attributes"] = None if cfg["mva"] is None else {k: forms[(len(k) + len(v)) % 4](v) for k, v in cfg["mva"]}
     if cfg.get("dcls", "absent") != "absent":
         kw["attribute_dict_class"] = dc[cfg["dcls"]]
     if cfg.get("lcls", 0) != 0:
@@ -701,7 +714,7 @@ LOOKALIKES = [0x200B, 0x200C, 0x200D, 0x2060, 0xFEFF, 0x180E, 0x00AD, 0x034F, 0x
 TOKCH = "abcxyzAZ09-_.:+"
 
 VALUE_GRID = (
-    [("s", s) for s in ["", "x", "a b", " a  b ", "0", "False", "k"]]
+    [("s", s) for s in ["", "x", "a b", " a  b ", "0", "False", "k"]] + [("S", " p  q "), ("S", "")]
     + [("b", True), ("b", False), ("n",)]
     + [("i", d) for d in ["0", "1", "-1", "7", "-12", "255", "E30", "-E30", "E4299", "E4300", "-E4300", "-E4299"]]
     + [("f", d) for d in ["0.0", "-0.0", "1.5", "-2.25", "1e300", "1e-07", "inf", "-inf", "nan", "3.0"]]
@@ -996,6 +1009,19 @@ def simulate_history(case):
             else:
                 tags[i]["attrs"].pop(key, None)          # deleting a missing attribute is not an error
                 msteps.append(f"D!{i}!{tok(key)}")
+        elif st[0] == "ctor":
+            _, i, isx = st
+            if i >= len(tags):
+                ok = False
+            else:
+                # Tag(name=…, attrs=other.attrs, is_xml=…): a builder-less tag, HTML/XML container by is_xml, the values
+                # assigned through it, lists in new lists
+                ccls = "xml" if isx else "html"
+                d = {}
+                for k, v in tags[i]["attrs"].items():
+                    oracle_store(ccls, d, k, _copy_val(v))
+                tags.append({"name": tags[i]["name"], "cls": ccls, "lcls": 1, "x": 1 if isx else 0, "attrs": d})
+                msteps.append(f"T!{i}!{1 if isx else 0}")
         valid.append(ok)
         states.append([_otag_canon(t) for t in tags])
     return valid, states, msteps, tags
@@ -1052,6 +1078,10 @@ def exec_history(case):
             owner.append(None)
         elif st[0] == "copy":
             tags.append(copy.copy(tags[st[1]]))
+            owner.append(None)
+        elif st[0] == "ctor":
+            from bs4.element import Tag
+            tags.append(Tag(name=tags[st[1]].name, attrs=tags[st[1]].attrs, is_xml=bool(st[2])))
             owner.append(None)
         elif st[0] == "mut":
             _, i, key, op, arg = st
@@ -1194,7 +1224,7 @@ def gen_history_case(r):
             tagkeys.append([key])
         elif x < 0.9:
             i = r.randrange(len(tagkeys))
-            steps.append(["copy", i])
+            steps.append(["copy", i] if r.random() < 0.6 else ["ctor", i, r.random() < 0.3])
             tagkeys.append(list(tagkeys[i]))
         elif x < 0.95:
             i = r.randrange(len(tagkeys))
@@ -1713,7 +1743,7 @@ def run(ctx: Ctx):
         ctx.count("history:reused-builder" if c["reuse"] else "history:fresh-builders")
         ctx.count("history:inplace-changes-applied", sum(1 for st, ok in zip(c["steps"], v) if ok and st[0] == "mut"))
         ctx.count("history:documents", sum(1 for st in c["steps"] if st[0] == "doc"))
-        ctx.count("history:new_tag+copy", sum(1 for st, ok in zip(c["steps"], v) if ok and st[0] in ("new", "copy")))
+        ctx.count("history:new_tag+copy+ctor", sum(1 for st, ok in zip(c["steps"], v) if ok and st[0] in ("new", "copy", "ctor")))
         ms = [n for n, (st, ok) in enumerate(zip(c["steps"], v)) if ok and st[0] == "mut"]
         if ms and any(st[0] == "doc" for st in c["steps"][ms[0] + 1:]):
             ctx.count("history:document-parsed-after-an-inplace-change")
@@ -1788,6 +1818,9 @@ def replay(path):
                         out.append(f"  tag {st[1]}[{st[2]!r}].{st[3]}({'' if st[4] is None else repr(st[4])})   (skipped when not applicable)")
                     elif st[0] == "del":
                         out.append(f"  del tag {st[1]}[{st[2]!r}]")
+                    elif st[0] == "ctor":
+                        out.append(f"  tag {n} = Tag(name=tag{st[1]}.name, attrs=tag{st[1]}.attrs, is_xml={bool(st[2])})")
+                        n += 1
                     else:
                         out.append(f"  tag {st[1]}[{mk_key(st[2])!r}] = {st[3]!r}")
                 return "\n".join(out)
